@@ -180,6 +180,8 @@ def step (s : St) (ws : List String) : St × String :=
       fun a => s!"{a}={s.node.led.getBal a}"))
   | ["q", "dump"] => (s, "-")
   | ["q", "dumpdiff"] => (s, "-")
+  | "q" :: "prop" :: _ => (s, "-")
+  | "q" :: "obj" :: _ => (s, "-")
   | "q" :: "view" :: _ => (s, "-")
   | ["q", "height"] => (s, toString s.node.height)
   | ["restart"] => ({ s with node := { s.node with cache := [] } }, s!"ok h={s.node.height}")
